@@ -25,7 +25,7 @@ def build_daqmx(cfg, seed, variant=0):
             else:
                 cl = TYPES_BY_SIZE[sc["sz"]]
                 ty = cl[(h // (3 + i + 2 * s)) % len(cl)]
-            scalers.append({"id": s, "ty": ty, "buf": ch["buf"] - 1, "off": sc["off"]})
+            scalers.append({"id": s, "ty": ty, "buf": sc["buf"] - 1, "off": sc["off"]})
         n = cfg["rows"][ch["buf"] - 1]
         props = [["NI_Scaling_Status", "String", "unscaled"],
                  ["NI_Number_Of_Scales", "Uint32", len(scalers).to_bytes(4, "little")]]
@@ -77,7 +77,8 @@ def replay_daqmx_case(case):
     bundle = {"cfg": cfg, "seed": seed, "variant": case.get("variant", 0), "hex": e.data.hex()}
 
     def sig(kind, **kw):
-        s = {"kind": kind, "daqmx": cfg["kind"], "be": bool(cfg["be"]), "buffers": len(cfg["widths"])}
+        s = {"kind": kind, "daqmx": cfg["kind"], "be": bool(cfg["be"]), "buffers": len(cfg["widths"]),
+             "split_channel": any(len({sc_["buf"] for sc_ in ch_["scalers"]}) > 1 for ch_ in cfg["chans"])}
         s.update(kw)
         return s
 
@@ -169,7 +170,8 @@ def replay_daqmx_case(case):
                 for i, ch in enumerate(cfg["chans"]):
                     c = f["grp"]["c%d" % i]
                     b = ch["buf"] - 1
-                    want_len = cfg["rows"][b] * (cfg["k"] - 1) + rows[b]
+                    # a channel has as many values as its shortest scaler: complete rows of every buffer it draws on
+                    want_len = cfg["rows"][b] * (cfg["k"] - 1) + min(rows[sc_["buf"] - 1] for sc_ in ch["scalers"])
                     got = _scaler_elems(c.read_data(scaled=False)) if len(c) else {}
                     lens = {len(v) for v in got.values()} or {0}
                     if len(c) != want_len or lens != {want_len}:
